@@ -39,13 +39,18 @@ def run(tier, seed, replay=None):
             for i in range(per):
                 cid = p * 1000 + i
                 c = {"id": cid, "parallel": rnd.choice([1, 2, 3, 4, 8]) if i >= 5 else [1, 2, 3, 5, 8][i], "entries": rnd.choice([0, 1, 2, 5, 17, 60, 200]),
-                     "big": i % 3 == 2, "chunked": (p == 0 and i == 4) or (thorough and i == 30), "inf": i % 4 == 1, "seed": seed * 100003 + cid}
+                     "big": i % 3 == 2, "chunked": (p == 0 and i == 4) or (thorough and i % 20 == 10), "inf": i % 4 == 1, "seed": seed * 100003 + cid}
+                if c["chunked"]:
+                    c["entries"] = max(c["entries"], 30)          # keys of every kind after the split hash
                 if c["big"]:
                     c["entries"] = rnd.choice([20, 40, 80])
                     c["parallel"] = rnd.choice([2, 4, 8])
                 cs.append(c)
             return cs
         allcases = [cases_for(p) for p in range(nproc)]
+        # more records than the command's channels hold (1024): 1025, a few thousand
+        allcases[1 % nproc].append({"id": 990001, "parallel": 1, "entries": 1025, "big": False, "chunked": False, "inf": False, "seed": seed * 7 + 1})
+        allcases[2 % nproc].append({"id": 990002, "parallel": 4, "entries": 3000 if not thorough else 9000, "big": False, "chunked": False, "inf": True, "seed": seed * 7 + 2})
         import os
         def one(p):
             d = sc.path("w%d" % p)
